@@ -23,6 +23,7 @@ type Profile struct {
 	Observers   bool
 	CbActions   []int
 	MisuseKinds []string
+	MoveLists   bool // draw the MoveSlices fault per run
 	Tiny        bool // restrict component IDs to 64 (C20)
 	NoFixedRels bool // filters never fix a non-zero target (C16 twin)
 	BigBatch    bool
@@ -41,6 +42,7 @@ func DefaultProfile() *Profile {
 			KNewObserver: 1.5, KRegObs: 0.7, KUnregObs: 0.7, KEmit: 1,
 			KResource: 0.5, KGC: 0.7, KMisuse: 1.5, KCodec: 0.2,
 		},
+		MoveLists:  true,
 		StoreEvery: 1, PoolEvery: 1, LockEvery: 1, StatsEvery: 7, MapGetEvery: 5,
 		MinOps: 20, MaxOps: 300, MaxEntities: 120, Observers: true,
 		CbActions:   []int{CbNothing, CbRead, CbQuery, CbWritePtr, CbGC, CbStructural, CbUnregSelf, CbUnregOther, CbRegNew, CbSet, CbEmit},
@@ -74,6 +76,9 @@ func DrawConfig(r *Rng, p *Profile, tiny bool) Config {
 		offs = []int{0, 0, 1, 17, 39, 40}
 	}
 	cfg.Offset = offs[r.Intn(len(offs))]
+	if p.MoveLists {
+		cfg.Move = []int{0, 0, 1, 1, 1, 2, 3}[r.Intn(7)]
+	}
 	if r.Chance(0.5) {
 		cfg.Perm = r.Perm(NumTypes)
 	}
